@@ -76,8 +76,9 @@ static RecvOut runReceive(const std::vector<std::string>& chunks, bool asClient,
 		vnet::enable(false);
 		if (vf::asan_tripped()) o.asan = vf::asan_what();
 	};
+	vsched::states_reset();
 	vsched::Result x = vsched::run_once(std::vector<uint8_t>(), body, 400000);
-	vf::add(C_EXEC); vf::add(C_POINTS, x.points.size());
+	vf::add(C_EXEC); vf::add(C_POINTS, x.points.size()); { static int cst = vf::counter("states"); vf::add(cst, vsched::states_count()); }
 	return o;
 }
 static void expectMsgs(const RecvOut& o, const std::vector<std::string>& exp, const std::string& kase, const std::string& what) {
@@ -205,7 +206,8 @@ static void handshakeJob(int bound, int payloadLen, const std::string* replay) {
 	auto after = [&](const vsched::Result& x) { vf::add(C_EXEC); vf::add(C_POINTS, x.points.size()); vf::add(W_HANDSHAKE); if (x.preemptions) vf::add(W_PREEMPT); if (!verdict.empty()) vf::violation("handshake", verdict + "schedule " + x.trace(), kase + "|" + x.trace()); };
 	vsched::set_early_timeouts(false); // a handshake that fails because a read timed out on a slow peer is not a framing error
 	if (replay) { vsched::Result x = vsched::run_once(vsched::parse_schedule(*replay), body, 100000); after(x); vsched::set_early_timeouts(true); return; }
-	vsched::explore(body, after, bound, 0, 100000);
+	vsched::ExploreStats st = vsched::explore(body, after, bound, 0, 100000);
+	{ static int cst = vf::counter("states"); vf::add(cst, st.distinct_states); }
 	vsched::set_early_timeouts(true);
 }
 // accept key on the wire: a scripted client request with a known key; the server's 101 response must carry the RFC 6455 accept value
@@ -256,6 +258,7 @@ int main(int argc, char** argv) {
 	W_BADALLOC = vf::counter("w.absurd_lengths_refused_by_allocator"); W_LEN16 = vf::counter("w.frames_with_16bit_length"); W_LEN64 = vf::counter("w.frames_with_64bit_length"); W_MASKED = vf::counter("w.masked_frames"); W_FRAG = vf::counter("w.fragmented_messages"); W_PING_BETWEEN = vf::counter("w.ping_between_fragments");
 	W_HOSTILE_CLOSED = vf::counter("w.hostile_inputs_without_message"); W_HOSTILE_MSG = vf::counter("w.hostile_inputs_yielding_a_message"); W_NEG64 = vf::counter("w.length_fields_with_bit31_set"); W_HANDSHAKE = vf::counter("w.handshake_executions"); W_PREEMPT = vf::counter("w.executions_with_preemption");
 	vsched::set_fatal_handler(onFatal);
+	vsched::set_state_probe(vnet::state_hash);
 	if (sha1b64("dGhlIHNhbXBsZSBub25jZQ==258EAFA5-E914-47DA-95CA-C5AB0DC85B11") != "s3pPLMBiTxaQ9kYGzzhZRbK+xOo=") { fprintf(stderr, "HARNESS ERROR: reference SHA-1/base64 fails the RFC 6455 vector\n"); return 2; }
 	if (vf::opt.replay) { vf::parallel(1, [&](uint64_t) { run_case(vf::opt.kase); }); return vf::finish(); }
 	bool T = vf::opt.thorough();
@@ -281,7 +284,6 @@ int main(int argc, char** argv) {
 	// (6) handshake: accept key on the wire, and client <-> server with an echoed message under all interleavings within the bound
 	vf::parallel(64, [&](uint64_t k) { run_case(fmt("akey:%d", (int)k)); });
 	{ int lensH[] = { 1, 5, 126 }; int nb = T ? 3 : 2; vf::parallel(3 * nb, [&](uint64_t i) { handshakeJob((int)(i % nb), lensH[i / nb], 0); }); }
-	vf::add(vf::counter("states"), vf::get(C_EXEC));
 	vf::sample("binary frame of 65536 bytes, masked with key 01ff8001, followed by text frame END; delivered whole / header|rest / read(1)");
 	vf::sample("5-byte message fragmented 2|0|1|2 with a ping before fragment 2; hostile frame 8f ff 00 00 00 00 80 00 00 00 cut at every byte");
 	vf::sample("WebSocket::connect(127.0.0.1:9000) against WebSocketServer::serve over a 9-byte pipe, echo of a 126-byte message, all schedules with <= 1 preemption");
